@@ -31,6 +31,9 @@ def states(tier, seed):
         if ns == 1 and sym in ("fs", "sf"):
             continue
         st.append(dict(part="perf", ns=ns, sym=sym, user_sref=usr, flight=list(fl), perf=list(pf), k=k, fam=fam))
+        if k == 0 and sym in (True, "fs"):
+            # the multipoint option: the fuel burn that sizes the weight comes from ANOTHER flight point (connected by the user)
+            st.append(dict(part="perf", ns=ns, sym=sym, user_sref=usr, flight=list(fl), perf=list(pf), k=k, xfb=1234.5, fam=fam))
     for ns, sym, k in itertools.product([1, 2, 3], [False, True], [0, 1, 2]):
         st.append(dict(part="lw", ns=ns, sym=sym, k=k, fam=fam))
     # CM through the public groups: first surface cambered with nx >= 3 (camber-line length != chord), second surface flat
@@ -99,7 +102,14 @@ def perf_problem(s, W0=None):
     for kk, vv in vals.items():
         ivc.add_output(kk, val=vv)
     p.model.add_subsystem("ivc", ivc, promotes=["*"])
-    p.model.add_subsystem("tp", TotalPerformance(surfaces=surfs, user_specified_Sref=usr), promotes=["*"])
+    xfb = s.get("xfb")
+    if xfb is None:
+        p.model.add_subsystem("tp", TotalPerformance(surfaces=surfs, user_specified_Sref=usr), promotes=["*"])
+    else:
+        ivc.add_output("fuelburn_other_point", val=xfb, units="kg")
+        vals["fuelburn_other_point"] = xfb
+        p.model.add_subsystem("tp", TotalPerformance(surfaces=surfs, user_specified_Sref=usr, internally_connect_fuelburn=False), promotes=["*"])
+        p.model.connect("fuelburn_other_point", ["L_equals_W.fuelburn", "CG.fuelburn"])
     p.setup()
     return p, surfs, vals
 
@@ -114,7 +124,7 @@ def identities(p, surfs, vals, sym, usr):
     ms = sum(vals["s%d_structural_mass" % i] for i in range(ns))
     CL, CD = clS / St, cdS / St
     fb = (vals["W0"] + ms) * (np.exp(vals["R"] * vals["CT"] / vals["speed_of_sound"] / vals["Mach_number"] * CD / CL) - 1)
-    W = (ms + fb + vals["W0"]) * G0 * vals["load_factor"]
+    W = (ms + vals.get("fuelburn_other_point", fb) + vals["W0"]) * G0 * vals["load_factor"]
     cg = (vals["W0"] * vals["empty_cg"] + sum(vals["s%d_structural_mass" % i] * vals["s%d_cg_location" % i] for i in range(ns))) / (vals["W0"] + ms)
     Mcg = np.zeros(3)
     for i in range(ns):
